@@ -6,8 +6,9 @@ import UralModel.Py.UrlAccessors
 `Model/Canonicalize.lean` models the function between parsing and printing and is fed the
 components the real parser produced.  Here the parser is the model `Py.parseUrl`
 (`urlsplit` + the `SplitResult` accessors), so the whole function is a function
-`Str → Option Str` inside the model: cleaning → `parseUrl` → `canonParts` → `urlunsplit`.
-`none` = the cleaned string does not parse (`ValueError` escapes `canonicalize_url`).
+`Str → Option Str` inside the model: cleaning → `parseUrl` → `canonSplit` → `printSplit`.
+`none` = `ValueError` escapes `canonicalize_url`: the cleaned string does not parse, or its
+userinfo holds a bracket.
 Compared with the real `canonicalize_url` on every run (stream `canonicalize_whole`).
 -/
 namespace Ural.Canonicalize
@@ -22,10 +23,10 @@ structure Opts where
 
 /-- `canonicalize_url(url, default_protocol, unsplit=False, quoted, strip_fragment)` -/
 def canonicalizeSplit (puny : Str → Str) (o : Opts) (url : Str) : Option Split :=
-  (parseUrl (cleanUrl url o.defaultProtocol)).map (canonParts puny o.quoted o.stripFragment)
+  (parseUrl (cleanUrl url o.defaultProtocol)).bind (canonSplit puny o.quoted o.stripFragment)
 
 /-- `canonicalize_url(url, default_protocol, quoted=…, strip_fragment=…)` -/
 def canonicalizeUrl (puny : Str → Str) (o : Opts) (url : Str) : Option Str :=
-  (canonicalizeSplit puny o url).map urlunsplit
+  (canonicalizeSplit puny o url).map printSplit
 
 end Ural.Canonicalize
